@@ -320,6 +320,7 @@ Definition blob_gunzip (tb : gz_table) (d : blob) : gzres :=
   | BPlain [] => GzOk []              (* an empty file reads as empty data *)
   | BPlain b => gz_lookup tb b
   | BCut 0 _ => GzOk []
-  | BCut _ (BGz _ _) => GzEOF         (* checked as a class by the harness *)
+  | BCut 1 (BGz _ _) => GzBad         (* a single byte: "Not a gzipped file" (BadGzipFile, an OSError) *)
+  | BCut _ (BGz _ _) => GzEOF         (* >= 2 bytes of a gzip stream: EOFError; class checked by the harness *)
   | BCut _ _ => GzBad
   end.
